@@ -40,8 +40,8 @@ impl Family for C05Family {
 
     fn total(&self, tier: Tier) -> u64 {
         match tier {
-            Tier::Quick => 6_000,
-            Tier::Thorough => 450_000,
+            Tier::Quick => 50_000,
+            Tier::Thorough => 4_000_000,
         }
     }
 
